@@ -182,6 +182,20 @@ let steps_of (case : string list) (obs : string list) : pstep_obs list * kev lis
   go ops obs;
   (List.rev !steps, List.rev !evs)
 
+(* the fingerprints (A, B) of the initial token and of every observation (Pair/C01_Pred2.v) *)
+let fps_of (obs : string list) : (vfp * vfp) list =
+  List.filter_map (fun tok ->
+    if tok = "PANIC" then None else
+    match String.split_on_char '#' tok with
+    | [main; fb] when String.length main > 2 && String.sub main 0 2 = "I:" ->
+      Some (C_vsock.vfp_of_string (String.sub main 2 (String.length main - 2)), C_vsock.vfp_of_string fb)
+    | main :: theirs :: _ ->
+      let parts = String.split_on_char '/' main in
+      let mine = List.nth parts (List.length parts - 1) in
+      let fm = C_vsock.vfp_of_string mine and ft = C_vsock.vfp_of_string theirs in
+      Some (if main.[0] = 'a' then (fm, ft) else (ft, fm))
+    | _ -> None) obs
+
 (* pair_pred <name> <case tokens> | <observations> *)
 let run_pair_pred toks =
   match toks with
@@ -205,6 +219,27 @@ let run_pair_pred toks =
           | Some i, _ -> Printf.sprintf "FAIL %s step=%s reader=b" name (string_of_z i)
           | None, Some i -> Printf.sprintf "FAIL %s step=%s reader=a" name (string_of_z i)
           | None, None -> "FAIL " ^ name)
+     | "c02_pair_settled_ok" ->
+       (* died = some poll observation reports Ready with an error (token P:E...) *)
+       let died = List.exists (fun t ->
+           let n = String.length t in
+           let rec has i = i + 3 < n && ((t.[i] = ':' && t.[i+1] = 'P' && t.[i+2] = ':' && t.[i+3] = 'E') || has (i + 1)) in
+           has 0) obs in
+       if c02_pair_settled_ok died steps then "OK"
+       else if died then "FAIL c02_pair_settled_ok (an endpoint gave up although the network delivers)"
+       else Printf.sprintf "FAIL c02_pair_settled_ok (written %s/%s read %s/%s)"
+           (string_of_z (wrote_total SA steps)) (string_of_z (wrote_total SB steps))
+           (string_of_z (read_final SB steps)) (string_of_z (read_final SA steps))
+     | "c01_pair_guarded2" ->
+       let fps = fps_of obs in
+       if c01_pair_guarded2 fps evs steps then "OK"
+       else
+         (match (if c01_kf1_class2_dir SA fps evs then None else bad SB),
+                (if c01_kf1_class2_dir SB fps evs then None else bad SA) with
+          | Some i, _ -> Printf.sprintf "FAIL %s step=%s reader=b" name (string_of_z i)
+          | None, Some i -> Printf.sprintf "FAIL %s step=%s reader=a" name (string_of_z i)
+          | None, None -> "FAIL " ^ name)
+     | "c01_kf1_class2" -> if c01_kf1_class2 (fps_of obs) evs then "OK" else "FAIL c01_kf1_class2"
      | "c01_kf1_class" -> if c01_kf1_class evs then "OK" else "FAIL c01_kf1_class"
      | "c01_d17_class" -> if c01_d17_class evs then "OK" else "FAIL c01_d17_class"
      | _ -> failwith ("pair_pred: unknown predicate " ^ name))
